@@ -195,6 +195,21 @@ pub fn run(args: &[String]) {
             }
         }
         if ch == channels[0] {
+            // access paths of ALL explored nodes (specification state x implementation fingerprint)
+            let mut vp = BufWriter::new(std::fs::File::create(format!("{prefix}.variantpaths")).unwrap());
+            for (vi, _) in vars.iter().enumerate().take(4000) {
+                let mut path = vec![];
+                let mut cur = vi;
+                while let Some((pv, pk)) = vars[cur].parent {
+                    path.push(pk);
+                    cur = pv;
+                }
+                path.reverse();
+                let ops: Vec<Value> = path.iter().map(|&pk| script_line(&edges[pk], ch, imp, 0)).collect();
+                serde_json::to_writer(&mut vp, &json!({"state": vars[vi].q, "path": ops})).unwrap();
+                vp.write_all(b"\n").unwrap();
+            }
+            vp.flush().unwrap();
             unreached = first_of.iter().filter(|x| x.is_none()).count();
             for q in 0..nstates {
                 if let Some(v0) = first_of[q] {
